@@ -132,6 +132,18 @@ func (e *callerEnv) doOp(op, arg int) string {
 		// any result): whatever the library remembers about identifiers is written now
 		src = append([]byte(fmt.Sprintf("var fresh_%010d = 1\n", freshName.Add(1))), src...) // fixed width: offsets stay the same
 	}
+	if op <= 1 {
+		// the bytes belong to the caller: it fills its buffer, calls, and uses the buffer for
+		// the next request as soon as the call is back. Nothing of the library may still be
+		// reading it then (under the race detector a straggler shows as a race with these writes).
+		buf := append(make([]byte, 0, len(src)+64), src...)
+		src = buf
+		defer func() {
+			for i := range buf {
+				buf[i] = '#'
+			}
+		}()
+	}
 	var res string
 	func() {
 		defer func() {
@@ -386,6 +398,16 @@ func c12Callers(sc *Scenario) *Outcome {
 		gen.AddPlant(r, fp, rk, fc)
 		env.srcs = append(env.srcs, fp.Src)
 	}
+	// calls that end early in the middle of something (a lexical failure inside nested blocks,
+	// inside an expression, far before the end of a large input) next to calls whose outcome
+	// depends on starting from a clean slate (a bare expression, an unknown name and a stray
+	// token at top level, statistics): what the first kind abandons must not reach the second
+	depth := r.Range(1, 5)
+	env.srcs = append(env.srcs,
+		[]byte(strings.Repeat("def a { ", depth)+"x = 1 + (2 * \"unterminated\n"),
+		[]byte(strings.Repeat("def b \"n\" {\n", depth)+"var v = 3\ny = 42q\n"+strings.Repeat("}\n", depth)),
+		[]byte("1\n"), []byte("eval a\nprint )\nprint 1\n"), []byte("var q = 1\nprint q + zz\n"),
+		append([]byte("print 1\nprint 2 @ 3\n"), bytes.Repeat([]byte("print \"filler filler filler\"\n"), r.Range(2500, 9000))...))
 	env.orderKind = prng.Pick(r, []string{"ab", "inner", "mism", "tag", "ab-slice"})
 	env.orderSrc = []byte(orderSource(r, env.orderKind))
 	// the shared program: accepted, prints, defines blocks, binds
